@@ -763,3 +763,143 @@ def per_position_lookup_ignores_cache(ctx):
         bad is None and isinstance(base, dict) and base.get(hL) == base.get(hA),
         (f"with {bad[0]} the lookup of C(A, Loud) gives {bad[1]} instead of {bad[2]}: the outcome of a call depends on earlier calls" if bad else f"the lookup of C(A, Loud) gives {base}"),
     )
+
+
+# ---------------------------------------------------------------------------------------- build state read after the build
+def build_state_read_after_ensuring_the_build(ctx):
+    """A method that makes sure the function is built reads what the build replaces (the table, the signature
+    analysis) only afterwards: a reference taken before belongs to the previous, possibly empty, build."""
+    repo = ctx.repo
+    oc = A.function_class(repo)
+    build = A.build_method(repo)
+    # attributes the build rebinds, directly or through the methods it calls on self
+    rb = recv_name(build)
+    replaced = {w.attr for w in func_writes(build.node, rb) if w.kind == "rebind"}
+    for st in all_stmts(build.node):
+        for c in stmt_calls(st):
+            if is_self_attr(c.func, selfname=rb) and c.func.attr in oc.methods:
+                h = oc.methods[c.func.attr]
+                replaced |= {w.attr for w in func_writes(h.node, recv_name(h)) if w.kind == "rebind"}
+    replaced -= {"_compiled", "dispatch"}
+    ctx.require(len(replaced) >= 2, f"{build.key}: expected the build to replace the table and the analysis (found {sorted(replaced)})")
+    # methods that ensure the build: they call the build, or a method whose body calls the build
+    ensurers = {build.name}
+    for m in oc.methods.values():
+        rv = recv_name(m)
+        if m is not build and any(is_self_attr(c.func, build.name, selfname=rv) for st in all_stmts(m.node) for c in stmt_calls(st)) and not func_writes(m.node, rv):
+            ensurers.add(m.name)
+    n = 0
+    for m in oc.methods.values():
+        if m is build or m.name in ensurers:
+            continue
+        rv = recv_name(m)
+        cfg = cfg_of(ctx, m)
+        ens = [st for st in all_stmts(m.node) if any(is_self_attr(c.func, selfname=rv) and c.func.attr in ensurers for c in stmt_calls(st))]
+        if not ens:
+            continue
+        ens_nodes = [cfg.node_of(s) for s in ens]
+        from ..cfg import header_exprs
+
+        for st in all_stmts(m.node):
+            if isinstance(st, (ast.FunctionDef, ast.ClassDef)) or st in ens:
+                continue
+            reads = [x for e in header_exprs(st) for x in ast.walk(e) if is_self_attr(x, selfname=rv) and x.attr in replaced and isinstance(x.ctx, ast.Load)]
+            for x in reads:
+                n += 1
+                ctx.touch(m)
+                ok = cfg.dominated_by(cfg.node_of(st), ens_nodes)
+                ctx.ob(
+                    f"{m.key}:{x.attr}-read-after-build",
+                    m.loc(st),
+                    f"`{short(st, 50)}` reads `{x.attr}`, which the build replaces, only after the build was ensured",
+                    ok,
+                    f"`{short(st, 50)}` takes `{x.attr}` before `{short(ens[0], 30)}`: on a function that was not built yet this is the empty object of the constructor, so the key is built with the wrong key functions (or looked up in a stale table)",
+                )
+    ctx.require(n >= 1, "no method reads build state after ensuring the build")
+
+
+# ---------------------------------------------------------------------------------------- Literal bound
+def literal_bound_covers_every_value(ctx):
+    """Interpret the default bound of the literal type on values of one, two and three types: it is that type, or
+    the union of all of them."""
+    repo = ctx.repo
+    n = 0
+    for c in repo.all_classes():
+        if "default_bound" not in c.methods or "check" not in c.methods:
+            continue
+        m = c.methods["default_bound"]
+        if not m.node.args.vararg:
+            continue
+        # the literal type: its check is membership of the value among the parameters
+        ck = c.methods["check"]
+        if not any(isinstance(x, ast.Compare) and any(isinstance(o, ast.In) for o in x.ops) for x in ast.walk(ck.node)):
+            continue
+        n += 1
+        ctx.touch(m)
+
+        class UnionStub:
+            def __class_getitem__(cls, item):
+                return ("Union", tuple(item) if isinstance(item, (tuple, list)) else (item,))
+
+            def __getitem__(self, item):
+                return ("Union", tuple(item) if isinstance(item, (tuple, list)) else (item,))
+
+        class V:
+            def __init__(self, t):
+                self.t = t
+
+        bad = None
+        cases = [("int",), ("int", "int"), ("int", "str"), ("str", "int"), ("int", "str", "float"), ("int", "str", "int")]
+        for tys in cases:
+            genv = {"type": lambda v: v.t, "Union": UnionStub()}
+            me = Record(parameters=())
+            hi = HostInterp({}, me, {}, globals_env=genv, classes={}, functions={})
+            hi.host_types = hi.host_types + (UnionStub,)
+            try:
+                got = hi.call_function(m.node, [me] + [V(t) for t in tys], {}, {})
+            except (AnalysisError, Raised) as e:
+                raise AnalysisError(f"{m.key}: not interpretable: {e}")
+            distinct = list(dict.fromkeys(tys))
+            covered = {got} if isinstance(got, str) else (set(got[1]) if isinstance(got, tuple) and got and got[0] == "Union" else set())
+            if covered != set(distinct) and bad is None:
+                bad = (tys, got)
+        ctx.ob(
+            f"{m.key}:covers-every-value-type",
+            m.loc(),
+            f"the bound of a literal type is the type of its values, or the union of all their types ({len(cases)} cases interpreted)",
+            bad is None,
+            (f"for values of types {bad[0]} the bound is {bad[1]}: values of the other types can never reach the method, and reordering the values changes what it accepts" if bad else ""),
+        )
+    ctx.require(n >= 1, "literal type with a default bound not found")
+
+
+# ---------------------------------------------------------------------------------------- rename only the unnamed
+def entry_point_replaced_only_on_unnamed_or_fresh(ctx):
+    """The method that re-creates the entry point (and with it loses every mark set on the old one) is called only on a
+    function object that has no name yet, or on one created in the same function."""
+    repo = ctx.repo
+    oc = A.function_class(repo)
+    renamers = [m for m in oc.methods.values() if m.name != "__init__" and any(w.attr == "dispatch" and w.kind == "rebind" for w in func_writes(m.node, recv_name(m))) and not any(is_self_attr(c.func, selfname=recv_name(m)) and c.func.attr == A.build_method(repo).name for st in all_stmts(m.node) for c in stmt_calls(st)) and m is not A.build_method(repo)]
+    ctx.require(renamers, f"{oc.key}: no method replaces the entry point outside the build")
+    from .common import holds_at
+
+    names = {m.name for m in renamers}
+    n = 0
+    for f in repo.all_funcs():
+        for c in ast.walk(f.node):
+            if not (isinstance(c, ast.Call) and isinstance(c.func, ast.Attribute) and c.func.attr in names and isinstance(c.func.value, ast.Name)):
+                continue
+            recv = c.func.value.id
+            n += 1
+            ctx.touch(f)
+            defs = [s.value for s in all_stmts(f.node) if isinstance(s, ast.Assign) and any(isinstance(t, ast.Name) and t.id == recv for t in s.targets)]
+            fresh = bool(defs) and all(isinstance(v, ast.Call) and ((isinstance(v.func, ast.Attribute) and v.func.attr in ("copy", "variant")) or call_name(v) == oc.name) for v in defs)
+            guarded = holds_at(ctx, f, c, lambda a, recv=recv: a[0] == "cmp" and a[1] == "Is" and {src(a[2]), src(a[3])} == {f"{recv}.name", "None"})
+            ctx.ob(
+                f"{f.key}:{c.func.attr}-on-unnamed-or-fresh",
+                f.loc(c),
+                f"`{short(c, 40)}` replaces the entry point of a function object that is new in this function or has no name yet",
+                fresh or guarded,
+                f"`{short(c, 40)}` re-creates the entry point of an object that may already be in use: marks carried by the old entry point (extend_super) are lost, and a class built with it as a mixin drops its definitions",
+            )
+    ctx.require(n >= 2, "expected calls of the renaming method")
